@@ -246,7 +246,31 @@ pub fn scenarios(thorough: bool) -> Vec<Scenario> {
 /// the comparison of revisions equals the stated rule (resolution markers lowest, then numeric index,
 /// then bytes of the printed identifier) on ALL ordered pairs of the constructor-reachable revisions
 pub fn order_pairs(rep: &mut Report, thorough: bool) {
-    let rs: Vec<Revision> = crate::props::c19::reachable(thorough).into_iter().map(|(r, _, _)| r).collect();
+    let mut rs: Vec<Revision> = crate::props::c19::reachable(thorough).into_iter().map(|(r, _, _)| r).collect();
+    // content digests are arbitrary hex strings: add revisions whose digest has the one-character deletion / empty
+    // markers ("d", "e") as a PREFIX, followed by a digit or a letter (the identifier's "_" separator sorts between
+    // them), character codes, and full-length digests, on the same and on different parents
+    {
+        let parents = [Revision::new(1u32, "aaaa", None), Revision::new(1u32, "bbbb", None), Revision::new(9u32, "cccc", Some(&Revision::new(8u32, "aaaa", None)))];
+        let long_d4 = format!("d4{}", "7".repeat(62));
+        let long_da = format!("da{}", "7".repeat(62));
+        let long_e0 = format!("e0{}", "7".repeat(62));
+        let digests = ["d", "e", "d0", "d4aa", "d9", "da", "dfff", "e0", "e9", "ea", "0", "f", "41", "c", "cf", long_d4.as_str(), long_da.as_str(), long_e0.as_str()];
+        for p in &parents {
+            for d in digests {
+                let r = Revision::new(p.index() + 1, d, Some(p));
+                if !rs.contains(&r) {
+                    rs.push(r);
+                }
+            }
+        }
+        for d in digests {
+            let r = Revision::new(1u32, d, None);
+            if !rs.contains(&r) {
+                rs.push(r);
+            }
+        }
+    }
     let key = |r: &Revision| -> (u8, u64, String) {
         let s = r.to_string();
         if r.is_resolved() { (0, 0, s) } else { (1, r.index() as u64, s) }
